@@ -93,15 +93,19 @@ def gen_logon(rng, d, seq0):
 
 
 def gen_app_message(rng, d, big=False):
-    hdr_user = [e for e in d['hdr'] if e[1] not in (8, 9, 35, 10)]
+    # one message in four carries framing fields of its own (BeginString / BodyLength / MsgType in the header, CheckSum in the
+    # trailer), as a message obtained from the reader and sent again does: the session owns those fields and must write them once
+    echo = rng.random() < 0.25
+    hdr_user = [e for e in d['hdr'] if echo or e[1] not in (8, 9, 35, 10)]
     h = []
     for e in hdr_user:
-        p = 0.15 if e[1] in STAMP_ORDER else 0.5         # pre-set stamped fields are overwritten in place
+        p = 0.15 if e[1] in STAMP_ORDER else (0.8 if e[1] in (8, 9, 35) else 0.5)   # pre-set stamped fields are overwritten in place
         if rng.random() < p:
             h += fc.gen_seg(rng, [e], p_optional=1.0)
-    rng.shuffle(h)
+    if not echo or rng.random() < 0.5:
+        rng.shuffle(h)
     b = fc.gen_seg(rng, d['body'], max_inst=8 if big else 3)
-    t = fc.gen_seg(rng, [e for e in d['trl'] if e[1] != 10])
+    t = fc.gen_seg(rng, [e for e in d['trl'] if echo or e[1] != 10], p_optional=0.9 if echo else 0.5)
     return {'hdr': h, 'body': b, 'trl': t}
 
 
@@ -113,7 +117,8 @@ def stamped(d, m, sess, seq, time):
     for t, v in ((50, ('s', sess[0])), (56, ('s', sess[1])), (49, ('s', sess[2])), (34, ('i', seq)), (52, ('s', time))):
         if t in tags:
             upsert(h, t, v)
-    return {'hdr': h, 'body': m['body'], 'trl': m['trl']}
+    # `_prepare_complete_msg` removes the framing fields the message itself carries before it serialises it
+    return {'hdr': [x for x in h if x[0] not in (8, 9, 35)], 'body': m['body'], 'trl': [x for x in m['trl'] if x[0] != 10]}
 
 
 def ref_frame(ver, d, m):
